@@ -210,5 +210,6 @@ thread_local! {
 }
 
 pub fn with_hist<R>(f: impl FnOnce(&mut Hist) -> R) -> R {
+    let _sim = crate::alloc_count::exempt();
     HIST.with(|h| f(&mut h.borrow_mut()))
 }
